@@ -291,9 +291,9 @@ def run_cc(c):
 
 
 # a contact of multiplicity k splits like eps^(1/k): measured worst cases over 3 x 1500 generated cases are 2e-6 (one double
-# point), 5e-3 (two double points), 6e-2 (4-fold point); a wrong branch moves a normalised coordinate by O(1)
+# point), 5e-3 (two double points), 1.3e-1 (4-fold point, tolerance 0.3); a wrong branch moves a normalised coordinate by O(1)
 TOL_ON = {False: 1e-6, True: 1e-5}
-TOL_KNOWN = {False: 1e-5, "tangent_secant": 1e-3, "tangent_tangent": 3e-2, "fourfold": 0.15}
+TOL_KNOWN = {False: 1e-5, "tangent_secant": 1e-3, "tangent_tangent": 3e-2, "fourfold": 0.3}
 STATS = None
 
 
